@@ -33,6 +33,11 @@ func (t *Truth) activeDuring(rep string, fromSeq, toSeq int) (everActive, everIn
 		idx++
 	}
 	check(status)
+	if idx == 0 {
+		// no status of its own yet: Run() may not have got round to it (a shutdown that began
+		// during the start-up leaves the remaining processes unregistered)
+		everInactive = true
+	}
 	for idx < len(trs) && trs[idx].Seq <= toSeq {
 		check(trs[idx].State)
 		idx++
